@@ -5,9 +5,11 @@ package main
 // would re-implement the function under test).
 
 import (
-	"strings"
+	"fmt"
 	"math/rand"
 	"reflect"
+	"sort"
+	"strings"
 	"time"
 	"unicode/utf8"
 
@@ -210,6 +212,7 @@ type STags struct {
 type Inner struct {
 	X int16
 	Y string `clover:"y"`
+	R uint8  `clover:"renamed"` // a stored name that encoding/json would not match with the field by itself
 }
 
 type SEmb struct {
@@ -287,9 +290,10 @@ func fld(name, tag string, omit, emb, exported int, g V) []interface{} {
 func (g *goGen) inner() (Inner, V) {
 	ord, iv := g.smallOrd()
 	s := strPool[g.r.Intn(len(strPool))]
-	return Inner{X: int16(iv), Y: s}, V{"struct", []interface{}{
+	return Inner{X: int16(iv), Y: s, R: uint8(iv)}, V{"struct", []interface{}{
 		fld("X", "", 0, 0, 1, V{"int", ord, 16, zeroFlag(iv)}),
 		fld("Y", "y", 0, 0, 1, V{"string", B(s)}),
+		fld("R", "renamed", 0, 0, 1, V{"uint", ord, 8, zeroFlag(iv)}),
 	}}
 }
 
@@ -485,6 +489,23 @@ func auxNorm(r *rand.Rand, n int, emit func(E), stats map[string]int) {
 	g := &goGen{r: r, u: u}
 	for i := 0; i < n; i++ {
 		v, a := g.value(3)
+		if i == 1 { // deterministic witness of the open finding on Unmarshal and zone offsets with seconds
+			ord, iv := g.smallOrd()
+			in := Inner{X: int16(iv), Y: "a", R: uint8(iv)}
+			inA := V{"struct", []interface{}{
+				fld("X", "", 0, 0, 1, V{"int", ord, 16, zeroFlag(iv)}),
+				fld("Y", "y", 0, 0, 1, V{"string", B("a")}),
+				fld("R", "renamed", 0, 0, 1, V{"uint", ord, 8, zeroFlag(iv)}),
+			}}
+			v = SNested{In: in, T: u.timeOf(2, 4)}
+			a = V{"struct", []interface{}{
+				fld("In", "in", 0, 0, 1, inA),
+				fld("Ptr", "ptr", 1, 0, 1, V{"nilptr"}),
+				fld("T", "", 0, 0, 1, V{"time", 2, 4}),
+				fld("PT", "pt", 0, 0, 1, V{"nilptr"}),
+				fld("M", "", 0, 0, 1, V{"map", 1, []interface{}{}}),
+			}}
+		}
 		if i == 0 { // deterministic witness of the open finding on Unmarshal and invalid UTF-8
 			ord, iv := g.smallOrd()
 			v = SPlain{A: int(iv), B: "\xff\x00"}
@@ -576,8 +597,105 @@ func roundTrip(d *document.Document, orig interface{}) string {
 			return "diff:invalid-utf8"
 		}
 		return "diff"
+	case SNested, SEmbPtr, SPtrOmit, STags:
+		// types with pointers, times and nested structs: compared through the documents of the original and of the
+		// struct that came back (two structs with equal documents may still differ in a nil pointer against a
+		// pointer to a zero value, which omitempty cannot tell apart either)
+		if t, ok := rv.Interface().(STags); ok && t.Any != nil {
+			return "skipped" // an interface{} field comes back with encoding/json's types
+		}
+		back := reflect.New(rv.Type())
+		if err := d.Unmarshal(back.Interface()); err != nil {
+			return "error"
+		}
+		d2 := document.NewDocumentOf(back.Elem().Interface())
+		if d2 == nil {
+			return "diff"
+		}
+		u := NewUniverse("general", "general")
+		a1, a2 := u.alphaLoose(d.ToMap()), u.alphaLoose(d2.ToMap())
+		if fmt.Sprint(a1) == fmt.Sprint(a2) {
+			return "same"
+		}
+		if hasInvalidUTF8(d.ToMap()) {
+			return "diff:invalid-utf8"
+		}
+		if hasSubMinuteZone(d.ToMap()) {
+			return "diff:subminute-zone" // Unmarshal goes through encoding/json, whose RFC 3339 text has no seconds in the offset
+		}
+		return "diff"
 	}
 	return "skipped"
+}
+
+func hasSubMinuteZone(x interface{}) bool {
+	switch v := x.(type) {
+	case time.Time:
+		_, off := v.Zone()
+		return off%60 != 0
+	case map[string]interface{}:
+		for _, e := range v {
+			if hasSubMinuteZone(e) {
+				return true
+			}
+		}
+	case []interface{}:
+		for _, e := range v {
+			if hasSubMinuteZone(e) {
+				return true
+			}
+		}
+	}
+	return false
+}
+
+// alphaLoose renders a canonical value for comparison only (numbers and times as Go prints them)
+func (u *Universe) alphaLoose(x interface{}) string {
+	switch v := x.(type) {
+	case map[string]interface{}:
+		keys := make([]string, 0, len(v))
+		for k := range v {
+			keys = append(keys, k)
+		}
+		sort.Strings(keys)
+		var sb strings.Builder
+		sb.WriteString("{")
+		for _, k := range keys {
+			fmt.Fprintf(&sb, "%q:%s,", k, u.alphaLoose(v[k]))
+		}
+		return sb.String() + "}"
+	case []interface{}:
+		var sb strings.Builder
+		sb.WriteString("[")
+		for _, e := range v {
+			sb.WriteString(u.alphaLoose(e) + ",")
+		}
+		return sb.String() + "]"
+	case time.Time:
+		_, off := v.Zone()
+		return fmt.Sprintf("time(%d,%d)", v.UnixNano(), off)
+	}
+	return fmt.Sprintf("%T(%#v)", x, x)
+}
+
+func hasInvalidUTF8(x interface{}) bool {
+	switch v := x.(type) {
+	case string:
+		return !utf8.ValidString(v)
+	case map[string]interface{}:
+		for k, e := range v {
+			if !utf8.ValidString(k) || hasInvalidUTF8(e) {
+				return true
+			}
+		}
+	case []interface{}:
+		for _, e := range v {
+			if hasInvalidUTF8(e) {
+				return true
+			}
+		}
+	}
+	return false
 }
 
 func auxDocPath(r *rand.Rand, n int, emit func(E), stats map[string]int) {
